@@ -6,7 +6,7 @@
 (* pause and after an unpause.                                              *)
 EXTENDS MCBase
 
-MCInit == {[BaseState EXCEPT !.pausedBM = bm, !.pausedSR = sr, !.pauser = "a2"] : bm \in BOOLEAN, sr \in BOOLEAN}
+MCInit == {[BaseState EXCEPT !.pausedBM = bm, !.pausedSR = sr, !.pauser = "a2", !.bal = [@ EXCEPT !["a1"] = 6], !.supply = 10] : bm \in BOOLEAN, sr \in BOOLEAN}
 
 \* a nonce that the state has not consumed yet keeps the receive "otherwise valid"
 FreshIn(s) == CHOOSE n \in 0..10 : [d |-> "d1", n |-> n] \notin s.used
